@@ -57,6 +57,7 @@ type Profile struct {
 	PViaOpt      float64
 	PMidInvoke   float64
 	PReenter     float64
+	PDigErr      float64 // share of error faults whose error wraps a foreign dig error
 	Invokes      [2]int
 	InvokeFaults bool
 }
@@ -195,6 +196,9 @@ func (g *gen) addFaults(f *Fn) {
 		kind = "panic"
 	} else {
 		f.HasErr = true
+		if g.coin(g.p.PDigErr) {
+			kind = "digerr"
+		}
 	}
 	f.Faults = map[int]string{}
 	switch g.r.Intn(4) {
